@@ -607,7 +607,8 @@ V_C17(S, e, T, aux) ==
                     /\ aux.lastq.q = (IF inp THEN "input_amount" ELSE "output_amount")
             quoted == aux.lastq.val
             \* receives at least / gives at most, by direction
-            limitok == IF a.limit = 0 \/ a.amount = 0 THEN TRUE
+            \* (an empty swap exchanges nothing and is held to the limit like any other)
+            limitok == IF a.limit = 0 THEN TRUE
                        ELSE IF inp THEN (IF a.dir = "add" THEN quoted >= a.limit ELSE quoted <= a.limit)
                        ELSE (IF a.dir = "add" THEN quoted >= a.limit ELSE quoted <= a.limit)
         IN (IF e.res.ok
